@@ -135,22 +135,19 @@ pub fn leak(s: String) -> &'static str {
     Box::leak(s.into_boxed_str())
 }
 
-/// {"name": cps, "cacheable": bool, "suspend": n, "script": [ {"v":value} | {"fail":cps} | {"counter":true} | {"echo":true} | {"tagged":true} ]}
+/// {"name": cps, "cacheable": bool, "suspend": n, "script": [ {"r":"v","v":value} | {"r":"fail","msg":cps} | {"r":"counter"} | {"r":"echo"} | {"r":"tagged"} ]}
 pub fn modelfn_from_model(j: &J, log: Arc<Log>) -> Result<ModelFn, String> {
     let name = leak(uncps(&j["name"])?);
     let mut script = Vec::new();
     if let Some(arr) = j["script"].as_array() {
         for r in arr {
-            script.push(if let Some(v) = r.get("v") {
-                FnRes::Val(from_model(v)?)
-            } else if let Some(m) = r.get("fail") {
-                FnRes::Fail(uncps(m)?)
-            } else if r.get("counter").is_some() {
-                FnRes::Counter
-            } else if r.get("tagged").is_some() {
-                FnRes::Tagged
-            } else {
-                FnRes::Echo
+            script.push(match r["r"].as_str() {
+                Some("v") => FnRes::Val(from_model(&r["v"])?),
+                Some("fail") => FnRes::Fail(uncps(&r["msg"])?),
+                Some("counter") => FnRes::Counter,
+                Some("tagged") => FnRes::Tagged,
+                Some("echo") => FnRes::Echo,
+                other => return Err(format!("bad script entry {other:?}")),
             });
         }
     }
